@@ -276,10 +276,38 @@ def work_after_crash(chunk, st):
     st.sample({'after_crashed_target': [list(x) for x in chunk[:2]]}, cap=3)
 
 
+# ---- targets written in different notations in one list (explicit port next to none, with and without -p)
+def work_mixed_ports(chunk, st):
+    for (a, pa), (b, pb), popt, fmt in chunk:
+        opts = ['-n', '--skip-rate-test'] + (['-j'] if fmt == 'json' else []) + (['-p', str(popt)] if popt else [])
+        dflt = popt or 22
+
+        def eff(p):
+            return dflt if p is None else p
+        res, outs = H.audit_sequence([MT.HEALTHY[a]('a'), MT.HEALTHY[b]('b')], opts=opts, hosts=['a.example', 'b.example'], ports=[eff(pa), eff(pb)],
+                                     lines=['a.example' + ('' if pa is None else ':%d' % pa), 'b.example' + ('' if pb is None else ':%d' % pb)])
+        st.execution(res.world, outcome=('mixed-ports', res.status, fmt), root=('mixed-ports', a, pa, b, pb, popt, fmt), nontrivial=('mixed-ports', a, pa, b, pb, popt, fmt))
+        if outs is None or len(outs) != 2:
+            st.violation('mixed-notation:output-shape', {'targets': [[a, pa], [b, pb]], 'p': popt, 'fmt': fmt, 'stdout': res.stdout[-300:]})
+            continue
+        for i, (arch, host, p) in enumerate(((a, 'a.example', pa), (b, 'b.example', pb))):
+            _r, alone = H.audit_sequence([MT.HEALTHY[arch]('x')], opts=opts, hosts=[host], ports=[eff(p)], lines=[host + ('' if p is None else ':%d' % p)])
+            x, y = outs[i], (alone or [None])[0]
+            if fmt == 'text' and y is not None:
+                x, y = MT.norm_block(x), MT.norm_block(y)
+            if x != y:
+                st.violation('result-differs:mixed-notation:%s' % fmt, {'targets': [[a, pa], [b, pb]], 'p': popt, 'index': i,
+                                                                      'diff': _text_diff(x, y or '') if fmt == 'text' else _json_diff(x, y)})
+    st.sample({'mixed_notation': [list(chunk[0][0]), list(chunk[0][1])], 'p': chunk[0][2]}, cap=3)
+
+
 def run(tier, seed):
     t0 = time.time()
     cs = cases(tier)
     st = par.pmap(work, cs, chunk=4 if tier == 'quick' else 2)
+    mixed = [((a, pa), (b, pb), popt, fmt) for a, b in (('TERR', 'CLEAN'), ('CLEAN', 'RSA1024')) for pa in (None, 2222, 22) for pb in (None, 2222, 2022)
+             for popt in (None, 2022) for fmt in ('text', 'json') if pa != pb]
+    par.pmap(work_mixed_ports, mixed, stats=st, chunk=4)
     firsts = ['RSA1024', 'GEX1024', 'TERR', 'CERTSMALLCA']
     seconds = ['CLEAN', 'RSA4096', 'GEX4096', 'MARK', 'RSA1024'] if tier == 'quick' else ARCHS
     par.pmap(work_after_crash, [(a, b, f) for a in firsts for b in seconds if b != 'SSH1' for f in ('text', 'json')], stats=st, chunk=2)
